@@ -1,6 +1,10 @@
 #!/bin/sh
-# ./replay.sh out/replay_<...>.json : re-run the recorded counter-model on the real code
+# ./replay.sh out/replay_<...>.json : re-run the recorded counter-model / failing input on the real code (/repo)
 cd "$(dirname "$0")"
 f="$1"
-h=$(python3-vt -c "import json,sys; d=json.load(open(sys.argv[1])); print((d.get('input') or {}).get('harness','node_harness'))" "$f")
-python3-vt -c "import json,sys; d=json.load(open(sys.argv[1])); json.dump({'input': d.get('input'), 'clause': d.get('clause'), 'repo': '/repo'}, sys.stdout)" "$f" | /venv/bin/python replay/$h.py
+h=$(python3-vt -c "import json,sys; d=json.load(open(sys.argv[1])); h=(d.get('input') or {}).get('harness','node_harness'); print('bounded_harness' if h=='df_enum' else h)" "$f")
+if [ ! -f "replay/$h.py" ]; then
+  echo "{\"ran\": false, \"note\": \"no replay harness for this obligation (no-failing-input-found): the file carries the failed obligation and the solver output\"}"
+  exit 0
+fi
+python3-vt -c "import json,sys; d=json.load(open(sys.argv[1])); json.dump({'input': d.get('input'), 'clause': d.get('clause'), 'property': d.get('property'), 'repo': '/repo'}, sys.stdout)" "$f" | /venv/bin/python replay/$h.py
